@@ -48,10 +48,12 @@ OPEN_STATEMENTS = [
     'distinct indices is 1/8 A_pq A_rs (-1 - B_pB_q + B_pB_r + B_pB_s + B_qB_r + B_qB_s - B_rB_s - B_pB_qB_rB_s) and acts as the '
     'double excitation: -A_pq A_rs on basis states with p, q occupied and r, s empty or vice versa, 0 elsewhere '
     '(bksf_two_body_four_index_formula, bksf_two_body_four_index_sound; hypothesis twoBody4Ok evaluated on every run; the '
-    'selection rule is also checked exactly on the implementation\'s output). NOT proved (correspondence '
+    'selection rule is also checked exactly on the implementation\'s output); _two_body with three distinct indices is the '
+    'number-excitation phase/2 (A_xy B_y + B_x A_xy) on basis states with the spectator vertex occupied, 0 elsewhere, and with '
+    'two distinct indices it is +/- n_p n_q (bksf_two_body_three_index_sound, bksf_two_body_two_index_sound; flags '
+    'twoBody3Ok / twoBody2Ok). NOT proved (correspondence '
     '+ numeric spectral Spec oracle on the outputs only: even-parity-sector eigenvalues of the fermionic operator are '
-    'eigenvalues of the image, 1e-7, connected edge graphs with <= 8 edges, N <= 6): the image formulas of _two_body for 3 / '
-    '2 distinct indices; that the entries selected by the main loop add up to the edge-operator image of the whole '
+    'eigenvalues of the image, 1e-7, connected edge graphs with <= 8 edges, N <= 6): that the entries selected by the main loop add up to the edge-operator image of the whole '
     'Hamiltonian — FALSE in general on the pinned tree: known findings F05-bksf-missing-edge (ValueError when the entry that is '
     'transformed is not the entry whose edges were registered) and F05-bksf-complex-coefficients (non-Hermitian output for '
     'complex Hermitian input); the fermionic identities expressing a^dagger a monomials by Majorana edge operators and the '
@@ -60,8 +62,10 @@ OPEN_STATEMENTS = [
     'Model, not driven)',
     'tree_term_support / tree_car_ann / tree_number_diagonal / tree_equiv_bk ARE theorems (the tree variant has no statement '
     'left to the oracle only)',
-    'isospectrality with Jordan-Wigner / preservation of expectation values are not restated: they follow from bk_exact / '
-    'tree_exact + injectivity of enc (the transformed operator is JW conjugated by the relabelling enc); CAR, diagonal '
+    'equivalence with Jordan-Wigner IS a theorem: <enc s\'| bk(A) |enc s> = <s\'| jw(A) |s> for bravyi_kitaev and '
+    'bravyi_kitaev_tree (bk_equiv_jw, tree_equiv_jw: isospectrality, equal expectation values), as are linearity, '
+    'preservation of Hermiticity and faithfulness (bk_linear, bk_hermitian_iff_and_faithful) and multiplicativity '
+    '(bk_multiplicative: bk(A) * bk(B) has the matrix elements of A * B and of bk(A * B) on the encoded states); CAR, diagonal '
     'number operators and the vacuum ARE theorems (bk_car, bk_car_ann, bk_number_diagonal, bk_vacuum, tree_car)',
 ]
 
